@@ -40,9 +40,14 @@ func Parse(str string) (Selector, error) {
 		return Selector{segment{str: ".?", identity: true, optional: true}}, nil
 	}
 
+	toks, ok := tokenize(str)
+	if !ok {
+		return nil, newParseError("selector contains an unterminated quoted string", str, len(str), "")
+	}
+
 	col := 0
 	var sel Selector
-	for _, tok := range tokenize(str) {
+	for _, tok := range toks {
 		seg := tok
 		opt := strings.HasSuffix(tok, "?")
 		if opt {
@@ -133,7 +138,9 @@ func MustParse(sel string) Selector {
 	return s
 }
 
-func tokenize(str string) []string {
+// tokenize splits the selector into its segments.
+// It returns false if a quoted string is left open, as nothing must be silently dropped.
+func tokenize(str string) ([]string, bool) {
 	var toks []string
 	col := 0
 	ofs := 0
@@ -166,11 +173,15 @@ func tokenize(str string) []string {
 		col++
 	}
 
-	if ofs < col && ctx != "\"" {
+	if ctx == "\"" {
+		return nil, false
+	}
+
+	if ofs < col {
 		toks = append(toks, str[ofs:col])
 	}
 
-	return toks
+	return toks, true
 }
 
 type parseerr struct {
